@@ -33,6 +33,11 @@ Lossless(fmt, cs, off) ==
      /\ ((HasS(K, 72) \/ (Conv(fmt, 73) /\ Conv(fmt, 112))) /\ HasS(K, 77))   \* (%H | %I with %p, in either order) %M
      /\ \/ (\E sp \in K : sp.kind = "EstarS" \/ (sp.kind = "EnS" /\ sp.n >= 15))
         \/ (HasS(K, 83) /\ (\E sp \in K : sp.kind = "Estarf" \/ (sp.kind = "Enf" /\ sp.n >= 15)))
+        \* %E0S ("like %S") with the full fraction anywhere else, as long as its text is not directly followed by '.' (which the
+        \* seconds field would claim as its own fraction)
+        \/ ((\E sp \in K : sp.kind = "EnS" /\ sp.n = 0) /\ ~(\E sp \in K : sp.kind = "EnS" /\ sp.n > 0) /\ ~(\E sp \in K : sp.kind = "EstarS")
+            /\ (\E sp \in K : sp.kind = "Estarf" \/ (sp.kind = "Enf" /\ sp.n >= 15))
+            /\ ~(\E i \in 1..(Len(fmt) - 1) : fmt[i] = 83 /\ fmt[i + 1] = 46))
      /\ \/ (\E sp \in K : sp.kind = "colz" /\ sp.n \in {2, 3})              \* full-resolution offset
         \/ (off % 60 = 0 /\ (HasS(K, 122) \/ (\E sp \in K : sp.kind = "colz")))
 \* %s renders the whole seconds only: it gives back the instant's second
